@@ -34,7 +34,10 @@ from ..core import Ctx, MachineryError, digest
 from ..forkpool import prepare_imports, run_cases
 from fractions import Fraction as F
 
-from ..lattice import ALL, EMBEDDINGS as _EMB, ORIGIN0, Emb
+from ..lattice import ALL as _ALL8, EMBEDDINGS as _EMB, ORIGIN0 as _ORIGIN0, Emb
+# + mega (step 1234567.8): large inexact coordinates on every path that loads rectangles through Netlist / Die
+ALL = list(_ALL8) + ["mega"]
+ORIGIN0 = list(_ORIGIN0) + ["mega"]
 from .. import tlc
 from .c15 import trace_outline
 
